@@ -35,8 +35,9 @@ THEOREMS = [
     "C08_fields_distinct_or_err",
     "C08_fields_err_on_collision",
     "C08_fields_ok_without_collision",
-    "C08_defs_distinct_excl",
-    "C08_defs_distinct_refuted",
+    "C08_defs_distinct_or_err",
+    "C08_defs_err_on_collision",
+    "C08_defs_ok_without_collision",
     "C08_classes_satisfiable",
 ]
 ALLOWED_AXIOMS = ()
@@ -374,22 +375,22 @@ class Pipe:
 
     def check_defs(self, names, case, res):
         self.stats["defs"] += 1
+        st = res.get("steps", [{}])[0]
         items = self.common("defs", names, case, res)
         if items is None:
+            if st.get("r") in ("err", "panic"):
+                self.stats["defs_rejected"] = self.stats.get("defs_rejected", 0) + 1
+                return st.get("r")
             return None
         idents = [i["name"] for i in items]
         self.stats["items_checked"] += len(idents)
         if len(idents) != len(names):
             self.bad("number of items differs from the number of definitions", case, res, idents=idents)
+        # distinct within the module (C08-F2 is fixed by c22ef06: duplicates are a violation again)
         dups = sorted({i for i in idents if idents.count(i) > 1})
         if dups:
             self.stats["dup_items"] += 1
-            for d in dups:
-                srcs = [n for n in names if self.san.get(n, (None, None))[1] == d]
-                if len(srcs) >= 2 and idents.count(d) == len(srcs):
-                    self.finding("C08-F2", {"definitions": names, "duplicate_item": d})
-                else:
-                    self.bad("duplicate item outside the listed classes", case, res, item=d, idents=idents)
+            self.bad("duplicate item names in the module", case, res, items=dups, idents=idents)
         self.nfc(idents, names, "items")
         return sorted(idents)
 
@@ -615,6 +616,12 @@ def run(ctx):
                     {"mod": "", "kind": "struct", "name": "T", "fields": {"k": "named", "fields": [
                         {"name": "foo_bar", "serde": [["rename", "foo-bar"]], "ty": "String", "vis": "pub"},
                         {"name": "foo_bar", "serde": [], "ty": "String", "vis": "pub"}]}}]}}})
+            if mutate == "no-def-unique-check" and kind == "defs" and names == ["foo", "Foo"]:
+                # emulates lib.rs batch_names check (fix c22ef06) removed: two items `Foo` are emitted
+                res.clear()
+                res.update({"steps": [{"r": "ok", "id": None}], "render": {"r": "ok", "scan": {"items": [
+                    {"mod": "", "kind": "struct", "name": "Foo", "fields": {"k": "named", "fields": []}},
+                    {"mod": "", "kind": "struct", "name": "Foo", "fields": {"k": "named", "fields": []}}]}}})
             if mutate == "no-x-fallback" and kind == "enum" and names == ["a", "a_"]:
                 # emulates type_entry.rs:258-268 removed: first-pass collision panics at once
                 res.clear()
@@ -658,7 +665,7 @@ def run(ctx):
                 return "run_fields cls %s %s" % (l, "true" if kind == "propsx" else "false")
             if kind == "enum":
                 return "run_variants cls %s" % l
-            return "show_list (List.map show_ustring (def_idents cls %s))" % l
+            return "run_defs cls %s" % l
         pshards = shard_by_table(rows, pcases, lambda it: "".join(it[1]), expr, 200)
         pmres = eval_shards("c08p", pshards)
         for (kind, names, case), o, m, res in zip(pcases, observed, pmres, pres):
@@ -685,6 +692,10 @@ def run(ctx):
             else:
                 if o is None:
                     e = "rejected"
+                elif isinstance(o, str):
+                    e = o
+                    if o == "err" and m == "err" and "map to the same type name" not in res.get("steps", [{}])[0].get("msg", ""):
+                        e = "err(other reason): " + str(res.get("steps"))
                 else:
                     e = ",".join(sorted(show(cps(i)) for i in o))
                 mm = ",".join(sorted(m.split(","))) if m else ""
